@@ -252,6 +252,15 @@ interrupt: for a waiting poll that stops dispatching anyway, for the non-blockin
 at.  A loop that remembers "the last poll found nothing and nothing was registered since" and goes from one expired timer
 straight to the next is rejected: `timer N run without a look at the registered descriptors since the previous callback`. -/
 
+/-! `events_spin(&done)` (`spinBegin … spinRet rc`) calls `events_run`'s body until `done` is non-zero, a callback returns a
+non-zero status or an interrupt is requested.  The monitor judges the call as a whole (an observer cannot tell where one
+turn of that loop ends): every order clause and the poll-timeout clauses apply unchanged; after a non-zero status nothing
+else runs and the call returns it; after an interrupt request nothing else runs and the call returns 0; 0 is returned
+otherwise only if `done` is set; if `done` was set before the call nothing at all runs (no callback, no poll); once `done`
+is set the turn in progress may finish, but no poll that may block (timeout ≠ 0) is issued any more; the interrupt request
+is consumed (a following `events_run` is a fresh call).  The per-call progress clauses of `ret` are not applied at
+`spinRet`. -/
+
 def step (m : M) : Ev → Except String M
   | .op (.regImm id p) .ok => pure { dropId m id with imms := (dropId m id).imms ++ [⟨id, p⟩] }
   | .op (.cancelImm id) .ok => pure (dropId m id)
